@@ -28,21 +28,22 @@ import (
 )
 
 type scenario struct {
-	Mode      string  `json:"mode"`                         // union-field | combine-fields | lattice
-	API       string  `json:"api"`                          // March | MarchOnAttribute | MarchParallel | Field.March
-	Adder     string  `json:"adder"`                        // AddField | AddFieldParallel | AddFieldParallel2 (how the canvas is filled)
-	Reuse     int     `json:"caller_slice_reuse,omitempty"` // what the caller does to the slice it built the union from (reuseNames)
-	Spare     int     `json:"caller_slice_spare_capacity,omitempty"`
-	Attr      string  `json:"attribute"`
-	CPU       float64 `json:"cubes_per_unit"`
-	Cut       float64 `json:"threshold"`
-	Shapes    []shape `json:"shapes,omitempty"`
-	DomLo     vec     `json:"domain_min"`
-	DomHi     vec     `json:"domain_max"`
-	Margin    float64 `json:"domain_margin_cells,omitempty"`
-	Placement string  `json:"placement"`
-	Straddle  int     `json:"axes_straddling_a_block_boundary"`
-	Long      bool    `json:"long_capsule,omitempty"`
+	Mode       string  `json:"mode"`                         // union-field | combine-fields | lattice
+	API        string  `json:"api"`                          // March | MarchOnAttribute | MarchParallel | Field.March
+	Adder      string  `json:"adder"`                        // AddField | AddFieldParallel | AddFieldParallel2 (how the canvas is filled)
+	Reuse      int     `json:"caller_slice_reuse,omitempty"` // what the caller does to the slice it built the union from (reuseNames)
+	Spare      int     `json:"caller_slice_spare_capacity,omitempty"`
+	Attr       string  `json:"attribute"`
+	CPU        float64 `json:"cubes_per_unit"`
+	Cut        float64 `json:"threshold"`
+	FieldScale float64 `json:"field_scale,omitempty"` // common factor on every strength and on the threshold (weak / strong fields)
+	Shapes     []shape `json:"shapes,omitempty"`
+	DomLo      vec     `json:"domain_min"`
+	DomHi      vec     `json:"domain_max"`
+	Margin     float64 `json:"domain_margin_cells,omitempty"`
+	Placement  string  `json:"placement"`
+	Straddle   int     `json:"axes_straddling_a_block_boundary"`
+	Long       bool    `json:"long_capsule,omitempty"`
 	// lattice tables (the table itself is regenerated from the case's seed)
 	TableN    [3]int  `json:"table_size,omitempty"`
 	TableBase [3]int  `json:"table_origin_lattice,omitempty"`
@@ -99,9 +100,19 @@ func genAnalytic(r *rand.Rand, long bool) *scenario {
 	// scale transform - reported separately, attribute names are outside the property's quantifier)
 	sc.API = []string{"March", "MarchOnAttribute", "MarchParallel"}[r.Intn(3)]
 	sc.Adder = adders[r.Intn(len(adders))]
+	// Round 8 (C09-M): WEAK and STRONG fields. A fifth of the union-field scenes multiply every strength and
+	// the threshold by one common factor (1e-3 ... 1e-8, or 1e3): the surface, the lattice classification and
+	// every crossing position are exactly those of the unscaled scene, but the sampled values differ by 1e-4 ...
+	// 1e-9 across a cell - below any absolute epsilon an interpolation "robustness fix" may compare them with.
+	weak := 1.
+	if sc.Mode == "union-field" && r.Intn(5) == 0 {
+		weak = []float64{1e-3, 1e-4, 1e-5, 1e-6, 1e-8, 1e3}[r.Intn(6)]
+		sc.Cut *= weak
+		sc.FieldScale = weak
+	}
 	strength := func() float64 {
 		if sc.Mode == "union-field" {
-			return []float64{1, 1, 1, 2, 0.75}[r.Intn(5)]
+			return weak * []float64{1, 1, 1, 2, 0.75}[r.Intn(5)]
 		}
 		return []float64{1, 1, 1, 1.5, 2}[r.Intn(5)] // marching.Sphere's domain only contains the sphere for strength >= 1
 	}
@@ -445,7 +456,7 @@ func execute(c *run.Ctx, sc *scenario) run.Result {
 				}
 				p := vec{float64(x) / sc.CPU, float64(y) / sc.CPU, float64(z) / sc.CPU}
 				fv := refField(p)
-				if math.Abs(fv-sc.Cut) < 1e-9 {
+				if math.Abs(fv-sc.Cut) < 1e-9*math.Min(lip, 1) { // the band is in field units: it scales with a weak field
 					// An EXACT tie on both sides (the reference and the value the canvas received are both
 					// bit-equal to the threshold) is not ambiguous: the property's region is "below the
 					// threshold", so the point is outside. Any other near-tie would be classified by rounding.
@@ -599,6 +610,10 @@ func execute(c *run.Ctx, sc *scenario) run.Result {
 		}
 	}
 	res.SetAdd("thresholds", fmt.Sprint(sc.Cut))
+	if sc.FieldScale != 0 {
+		res.Count("scenes_with_a_weak_or_strong_field", 1)
+		res.SetAdd("field_scales", fmt.Sprint(sc.FieldScale))
+	}
 	res.SetAdd("resolution_buckets", cpuBucket(sc.CPU))
 	res.SetAdd("blocks_with_surface_per_case", fmt.Sprint(len(st.ActiveBlocks)))
 	res.Nontrivial = seam > 0 && st.distinctConfigs() >= 8
